@@ -57,6 +57,110 @@ func tinkVerify(p pset, pk, msg, sig, ctx []byte) (bool, string) {
 	return true, ""
 }
 
+// ---------------------------------------------------------------------------------------------
+// messages whose DETERMINISTIC signature uses chosen tree / leaf indices
+//
+// Full signatures of the 's' sets cost seconds, so few are made; the indices idx_tree / idx_leaf
+// they run under come from H_msg and are uniform: the extreme values (leaf 0, last leaf, the top
+// bits of the tree index all clear / all set) are practically never signed under.  R and the digest
+// of a deterministic signature need only PRF_msg and H_msg (microseconds), so a message with a
+// chosen pattern is found by counting through a 4-byte suffix with the reference.
+
+type idxPattern struct{ tree, leaf string }
+
+var idxPatterns = func() (out []idxPattern) {
+	for _, t := range []string{"tree-top4=0000", "tree-top4=1111", "tree-top2=10"} {
+		for _, l := range []string{"leaf=0", "leaf=max", "leaf-topbit"} {
+			out = append(out, idxPattern{t, l})
+		}
+	}
+	return out
+}()
+
+func (pat idxPattern) String() string { return pat.tree + "/" + pat.leaf }
+
+func (pat idxPattern) matches(p pset, idxTree uint64, idxLeaf uint32) bool {
+	tb := uint(p.treeBits())
+	var okT bool
+	switch pat.tree {
+	case "tree-top4=0000":
+		okT = idxTree>>(tb-4) == 0
+	case "tree-top4=1111":
+		okT = idxTree>>(tb-4) == 0xf
+	case "tree-top2=10":
+		okT = idxTree>>(tb-2) == 2
+	}
+	max := p.leaves() - 1
+	switch pat.leaf {
+	case "leaf=0":
+		return okT && idxLeaf == 0
+	case "leaf=max":
+		return okT && idxLeaf == max
+	}
+	return okT && idxLeaf != max && idxLeaf>>(uint(p.r.HPrime)-1) == 1
+}
+
+// refIndices are the indices of the deterministic signature of (msg, ctx) under rsk (FIPS 205
+// Algorithm 22 line 8 and Algorithm 19 lines 3-10 with opt_rand = PK.seed), by the reference.
+func refIndices(p pset, rsk, msg, ctx []byte) (idxTree uint64, idxLeaf uint32) {
+	n := p.n()
+	skPrf, pkSeed, pkRoot := rsk[n:2*n], rsk[2*n:3*n], rsk[3*n:]
+	mp := append(append([]byte{0, byte(len(ctx))}, ctx...), msg...)
+	r := p.r.PRFMsg(skPrf, pkSeed, mp)
+	_, idxTree, idxLeaf = p.r.DigestIndices(p.r.HMsg(r, pkSeed, pkRoot, mp))
+	return idxTree, idxLeaf
+}
+
+// searchIndexMessage returns base || 4-byte counter, the first one whose deterministic signature
+// under rsk with context ctx runs under indices of the pattern (expected <= 2^13 trials).
+func searchIndexMessage(p pset, rsk, base, ctx []byte, pat idxPattern) (msg []byte, idxTree uint64, idxLeaf uint32) {
+	msg = append(append([]byte{}, base...), 0, 0, 0, 0)
+	c := msg[len(base):]
+	for i := uint32(0); i < 1<<22; i++ {
+		c[0], c[1], c[2], c[3] = byte(i>>24), byte(i>>16), byte(i>>8), byte(i)
+		if t, l := refIndices(p, rsk, msg, ctx); pat.matches(p, t, l) {
+			evid.Add("index_search_trials", int64(i)+1)
+			return msg, t, l
+		}
+	}
+	panic(fmt.Sprintf("harness: no message with index pattern %v for %s in 2^22 trials", pat, p.name))
+}
+
+// candBuf is one persistent signature buffer and one persistent message buffer: every verify
+// candidate of a case is copied to their start and handed over as a sub-slice, so that the same
+// backing array (same pointer, mostly the same length) carries different candidates one after the
+// other. A verifier that remembered a decision by the identity of its arguments instead of their
+// content would disagree with the reference.
+type candBuf struct {
+	sig, msg []byte
+	reused   int
+}
+
+const candBufSize = 1 << 16 // above the largest signature (49856 bytes) plus prefix and n extra bytes
+
+func bufView(buf *[]byte, b []byte) []byte {
+	if b == nil {
+		return nil
+	}
+	if cap(*buf) < len(b) {
+		n := candBufSize
+		for n < len(b) {
+			n *= 2
+		}
+		*buf = make([]byte, n)
+	}
+	v := (*buf)[:len(b)]
+	copy(v, b)
+	return v
+}
+
+func (c *candBuf) views(sig, msg []byte) (s, m []byte) {
+	if c.sig != nil && cap(c.sig) >= len(sig) && cap(c.msg) >= len(msg) {
+		c.reused++
+	}
+	return bufView(&c.sig, sig), bufView(&c.msg, msg)
+}
+
 func TestScheme(t *testing.T) {
 	rapid.Check(t, func(rt *rapid.T) {
 		begin(rt)
@@ -68,10 +172,19 @@ func TestScheme(t *testing.T) {
 		msg := gen.Bytes(rt, "msg", 1024)
 		ctx := drawCtx(rt)
 		route := sample(rt, "route", []string{"keygen", "decode"})
+		rsk, rpk := p.r.KeyGenInternal(skSeed, skPrf, pkSeed)
+		// 's' sets (seconds per signature, few cases): two cases in three sign a message extended by a
+		// searched 4-byte suffix, so that the deterministic signature runs under extreme indices
+		idxPat := "idx=any"
+		if p.small {
+			if k := pick(rt, "idxpattern", len(idxPatterns)+len(idxPatterns)/2); k < len(idxPatterns) {
+				msg, _, _ = searchIndexMessage(p, rsk, msg, ctx, idxPatterns[k])
+				idxPat = idxPatterns[k].String()
+			}
+		}
 		cs := fmt.Sprintf("%s SK.seed=%s SK.prf=%s PK.seed=%s M=%s ctx=%s key-route=%s", p.name, hx(skSeed), hx(skPrf), hx(pkSeed), hx(msg), hx(ctx), route)
 
 		// keys
-		rsk, rpk := p.r.KeyGenInternal(skSeed, skPrf, pkSeed)
 		tsk, tpk := p.t.KeygenInternal(append([]byte{}, skSeed...), append([]byte{}, skPrf...), append([]byte{}, pkSeed...))
 		if !bytes.Equal(tpk.Encode(), rpk) || !bytes.Equal(tsk.Encode(), rsk) || !bytes.Equal(tsk.PublicKey().Encode(), rpk) {
 			rt.Fatalf("%s: slh_keygen_internal gives pk=%x sk=%x (sk.PublicKey()=%x), reference (FIPS 205 Algorithm 18) gives pk=%x sk=%x", cs, tpk.Encode(), tsk.Encode(), tsk.PublicKey().Encode(), rpk, rsk)
@@ -110,9 +223,11 @@ func TestScheme(t *testing.T) {
 		}
 
 		ncand, naccept := 0, 0
+		var buf candBuf
 		try := func(kind string, vp pset, pk, m, sig, c []byte, mustAccept bool) {
 			ncand++
-			got, why := tinkVerify(vp, pk, m, sig, c)
+			vs, vm := buf.views(sig, m)
+			got, why := tinkVerify(vp, pk, vm, vs, c)
 			wantOK := vp.r.Verify(m, sig, c, pk)
 			if got != wantOK {
 				rt.Fatalf("%s: candidate %q (verified under %s, pk=%x, M=%s, ctx=%s, %d-byte signature %s): library accepts=%v (%s), reference (FIPS 205 Algorithm 24) accepts=%v", cs, kind, vp.name, pk, hx(m), hx(c), len(sig), hx(sig), got, why, wantOK)
@@ -187,9 +302,13 @@ func TestScheme(t *testing.T) {
 		evid.Add("verify_candidates", int64(ncand))
 		evid.Add("accepted_candidates", int64(naccept))
 		evid.Add("signatures", 3)
+		evid.Add("candidates_in_reused_buffers", int64(buf.reused))
 		fp := evid.NewH().S(p.name).B(skSeed).B(skPrf).B(pkSeed).B(msg).B(ctx).S(route).Sum()
+		if p.small {
+			evid.Add("scheme_s_sets/"+idxPat, 1)
+		}
 		evid.Case(fmt.Sprintf("scheme/%s/%s/msg=%s", p.name, ctxClass(ctx), gen.LenClass(len(msg))), true, fp, func() any {
-			return map[string]any{"case": cs, "candidates": ncand, "accepted": naccept}
+			return map[string]any{"case": cs, "candidates": ncand, "accepted": naccept, "deterministic_signature_indices": idxPat}
 		})
 	})
 }
@@ -233,6 +352,10 @@ func cached(rt *rapid.T, p pset) *cachedSig {
 	seeds := gen.Expand(0xC16000+uint64(p.idx), 3*n)
 	c := &cachedSig{m0: []byte("C16 cached message for " + p.name), ctx0: []byte("ctx0")}
 	c.rsk, c.rpk = p.r.KeyGenInternal(seeds[:n], seeds[n:2*n], seeds[2*n:])
+	// the one signature per set is made under extreme indices (a function of the set alone)
+	pat := idxPatterns[p.idx%len(idxPatterns)]
+	c.m0, _, _ = searchIndexMessage(p, c.rsk, c.m0, c.ctx0, pat)
+	evid.Add("cached_signature_indices/"+pat.String(), 1)
 	c.m0int = append(append([]byte{0, byte(len(c.ctx0))}, c.ctx0...), c.m0...)
 	c.sig = p.r.SignInternal(c.m0int, c.rsk, nil)
 	var err error
@@ -417,10 +540,12 @@ func TestTinkAPI(t *testing.T) {
 			rt.Fatalf("%s: the signature after the prefix does not verify under the reference with the empty context: %s", cs, hx(sig))
 		}
 		ncand, naccept := 0, 0
+		var buf candBuf
 		try := func(kind string, cand, m []byte) {
 			ncand++
 			should := bytes.HasPrefix(cand, prefix) && p.r.Verify(m, cand[len(prefix):], empty, rpk)
-			err := verifier.Verify(cand, m)
+			vs, vm := buf.views(cand, m)
+			err := verifier.Verify(vs, vm)
 			if (err == nil) != should {
 				rt.Fatalf("%s: candidate %q (M=%s, %d bytes %s): verifier err=%v, but prefix-match && reference-verify = %v", cs, kind, hx(m), len(cand), hx(cand), err, should)
 			}
@@ -455,6 +580,7 @@ func TestTinkAPI(t *testing.T) {
 
 		evid.Add("verify_candidates", int64(ncand))
 		evid.Add("accepted_candidates", int64(naccept))
+		evid.Add("candidates_in_reused_buffers", int64(buf.reused))
 		fp := evid.NewH().S(p.name).S(variant).S(route).I(int64(id)).B(rsk).B(msg).Sum()
 		evid.Case(fmt.Sprintf("api/%s/%s/%s", p.name, variant, route), true, fp, func() any {
 			return map[string]any{"case": cs, "candidates": ncand, "accepted": naccept}
@@ -478,7 +604,41 @@ func TestTinkAPIAllSets(t *testing.T) {
 		n := p.n()
 		mat := gen.Expand(seed+uint64(i), 3*n+40)
 		rsk, rpk := p.r.KeyGenInternal(mat[:n], mat[n:2*n], mat[2*n:3*n])
-		msg := mat[3*n:]
+		// the message is searched so that its deterministic signature (empty context) runs under
+		// extreme tree / leaf indices; the pattern rotates with the run's seed
+		pat := idxPatterns[(int(seed%uint64(len(idxPatterns)))+i)%len(idxPatterns)]
+		msg, idxTree, idxLeaf := searchIndexMessage(p, rsk, mat[3*n:], []byte{}, pat)
+		if t2, l2 := refIndices(p, rsk, msg, []byte{}); t2 != idxTree || l2 != idxLeaf || !pat.matches(p, t2, l2) {
+			t.Fatalf("harness: index search not reproducible")
+		}
+		// deterministic signing through the internal package's exported API, byte for byte against the
+		// reference - once per set (TestScheme reaches the 's' sets only a few times per run)
+		refRaw := tk.Must(p.r.Sign(msg, []byte{}, rsk, nil))
+		{
+			dsk, err := p.t.Params().DecodeSecretKey(append([]byte{}, rsk...))
+			if err != nil {
+				t.Fatalf("%s: DecodeSecretKey(%x): %v", p.name, rsk, err)
+			}
+			det, err := dsk.SignDeterministic(append([]byte{}, msg...), []byte{})
+			if err != nil {
+				t.Fatalf("%s sk=%x M=%x: SignDeterministic: %v", p.name, rsk, msg, err)
+			}
+			if !bytes.Equal(det, refRaw) {
+				at := firstDiff(det, refRaw)
+				t.Fatalf("%s sk=%x M=%x ctx=empty (idx_tree=%#x idx_leaf=%d, pattern %v): SignDeterministic differs from the reference (FIPS 205 Algorithms 22/19, deterministic variant) at byte %d of %d/%d (%s)\n library   %s\n reference %s", p.name, rsk, msg, idxTree, idxLeaf, pat, at, len(det), len(refRaw), region(p, at), hx(det), hx(refRaw))
+			}
+			dpk, err := p.t.Params().DecodePublicKey(append([]byte{}, rpk...))
+			if err != nil {
+				t.Fatalf("%s: DecodePublicKey(%x): %v", p.name, rpk, err)
+			}
+			if err := dpk.Verify(msg, det, []byte{}); err != nil {
+				t.Fatalf("%s sk=%x M=%x: Verify rejects the deterministic signature: %v", p.name, rsk, msg, err)
+			}
+			evid.Add("deterministic_signatures_compared", 1)
+			evid.Case("api-all-sets-deterministic/"+p.name+"/"+pat.String(), true, evid.NewH().S(p.name).B(rsk).B(msg).Sum(), func() any {
+				return fmt.Sprintf("%s sk=%x M=%x idx_tree=%#x idx_leaf=%d", p.name, rsk, msg, idxTree, idxLeaf)
+			})
+		}
 		as := apiSetOf(p)
 		for _, variant := range []string{tk.Tink, tk.NoPrefix} {
 			tv := map[string]slhdsa.Variant{tk.Tink: slhdsa.VariantTink, tk.NoPrefix: slhdsa.VariantNoPrefix}[variant]
@@ -554,10 +714,10 @@ func TestTinkAPIAllSets(t *testing.T) {
 			if err := verifier.Verify(sig, msg); err != nil {
 				t.Fatalf("%s: Tink verifier rejects the Tink signer's output: %v", cs, err)
 			}
-			if !p.small || variant == tk.Tink {
-				ref := append(append([]byte{}, prefix...), tk.Must(p.r.Sign(msg, []byte{}, rsk, nil))...)
+			{
+				ref := append(append([]byte{}, prefix...), refRaw...)
 				if err := verifier.Verify(ref, msg); err != nil {
-					t.Fatalf("%s: Tink verifier rejects a reference-made signature: %v", cs, err)
+					t.Fatalf("%s: Tink verifier rejects a reference-made signature (idx_tree=%#x idx_leaf=%d): %v", cs, idxTree, idxLeaf, err)
 				}
 			}
 			if err := verifier.Verify(sig, append(append([]byte{}, msg...), 1)); err == nil {
